@@ -11,6 +11,10 @@ import Poly.Model.Btc
    choose <amount> <outs>                      -> err | panic | ok sel=<ids> sum=<n> fee=<n> utxos=<ids> stxos=<ids>
    maketx <amount>                             -> err | err:amount | panic | ok in=<ids> out=<values> utxos=<ids> stxos=<ids>
         (makeBtcTx with one payment output; the model computes chooseUtxos, the fee share and change = sum - amount)
+   maketx <amount> self                        -> the same, paying the multisig's own witness address
+   sign <seq> <signer> | signbad <seq> <signer> -> err:signed | err:enough | err:verify | ok pending | ok final utxos=<ids> stxos=<ids>
+        (one MultiSign call of redeem key <signer> on the <seq>-th built transaction; signbad = a wrong signature)
+   settxid <seq> <txid>                        -> ok   (hash of the outputs created by the signed transaction)
    dump                                        -> utxos=<ids> stxos=<ids>
 -/
 open Poly Poly.Model.Btc
@@ -57,6 +61,7 @@ structure St where
   mc : Nat := 0
   store : Store := ⟨[], []⟩
   inited : Bool := false
+  pending : List Pending := []
 
 def step (s : St) (toks : List String) : St × String :=
   match toks with
@@ -98,12 +103,14 @@ def step (s : St) (toks : List String) : St × String :=
     | .ok a st =>
       ({ s with store := st },
         s!"ok sel={showIds a.sel} sum={a.sum} fee={a.fee} utxos={showIds st.utxos} stxos={showIds st.stxos}")
-  | ["maketx", amount] =>
-    if !s.inited || !(1 ≤ s.m && s.m ≤ s.n && s.n ≤ 15) then (s, "bad-op") else
+  | "maketx" :: amount :: selfTok =>
+    if !s.inited || !(1 ≤ s.m && s.m ≤ s.n && s.n ≤ 15) || !(selfTok == [] || selfTok == ["self"]) then (s, "bad-op") else
+    let self := selfTok == ["self"]
     let amt := intOf amount
     if amt ≤ 0 || amt > 2100000000000000 then (s, "err:amount") else
+    -- the payment output (P2PKH script, or the multisig's own P2WSH script) and the change output (P2WSH script)
     let P : Params := { mc := s.mc, target := amt.toNat, feeRate := s.feeRate, m := s.m, n := s.n,
-                        outs := [25, 34] }     -- the payment output (P2PKH script) and the change output (P2WSH script)
+                        outs := [if self then 34 else 25, 34] }
     let T := tests P.target 1 1 4 1
     match chooseUtxos T P s.store 1000000 with
     | .err => (s, "err")
@@ -114,8 +121,40 @@ def step (s : St) (toks : List String) : St × String :=
       let v1 : Int := amt - feeShare
       let ch := change a.sum amt
       let outs := [toString v1] ++ (if ch > 0 then [toString ch] else [])
-      ({ s with store := st },
+      let pend : Pending := { inputs := a.sel, outs := [(v1.toNat, self)] ++ (if ch > 0 then [(ch.toNat, true)] else []), signers := [] }
+      ({ s with store := st, pending := s.pending ++ [pend] },
         s!"ok in={showIds a.sel} out={",".intercalate outs} utxos={showIds st.utxos} stxos={showIds st.stxos}")
+  | [op, seq, signer] =>
+    if op == "settxid" then
+      -- settxid <seq> <txid>: the id of the signed transaction (a hash the model does not compute) becomes the hash
+      -- of the unspent outputs that transaction created
+      let q := Proto.natOf seq
+      match s.pending[q]? with
+      | none => (s, "bad-op")
+      | some p =>
+        if p.signers.length != s.m || !s.inited then (s, "bad-op") else
+        let h := Proto.bytesOf signer
+        let fix (u : Utxo) : Utxo := if u.id / 10 == 100 + q && u.id ≥ 1000 then { u with hash := h } else u
+        ({ s with store := { utxos := s.store.utxos.map fix, stxos := s.store.stxos.map fix } }, "ok")
+    else if op == "sign" || op == "signbad" then
+      if !s.inited || !(1 ≤ s.m && s.m ≤ s.n && s.n ≤ 15) then (s, "bad-op") else
+      let q := Proto.natOf seq
+      let sg := Proto.natOf signer
+      match s.pending[q]? with
+      | none => (s, "bad-op")
+      | some p =>
+        if sg ≥ s.n then (s, "bad-op") else
+        let mk (i v : Nat) : Utxo := { id := 1000 + 10 * q + i, value := v, wit := true, p2sh := false, hash := [], index := i }
+        match multiSign s.m s.store p sg (op == "sign") mk with
+        | .errSigned => (s, "err:signed")
+        | .errEnough => (s, "err:enough")
+        | .errStxo => (s, "err:other")
+        | .errVerify => (s, "err:verify")
+        | .pending p' => ({ s with pending := s.pending.set q p' }, "ok pending")
+        | .final p' st =>
+          ({ s with pending := s.pending.set q p', store := st },
+            s!"ok final utxos={showIds st.utxos} stxos={showIds st.stxos}")
+    else (s, "bad-op")
   | ["dump"] => if !s.inited then (s, "bad-op") else (s, s!"utxos={showIds s.store.utxos} stxos={showIds s.store.stxos}")
   | _ => (s, "bad-op")
 
